@@ -41,12 +41,14 @@ type ExitEvent struct {
 
 // Config for a node.
 type Config struct {
-	Dir       string // data directory
-	Candidate bool
-	Leaser    litefs.Leaser
-	Client    litefs.Client // default: http client
-	HTTP      bool          // start the HTTP API server on 127.0.0.1:0
-	Tune      func(s *litefs.Store)
+	// RefillCache: see PageCache.RefillAfterInvalidate.
+	RefillCache bool
+	Dir         string // data directory
+	Candidate   bool
+	Leaser      litefs.Leaser
+	Client      litefs.Client // default: http client
+	HTTP        bool          // start the HTTP API server on 127.0.0.1:0
+	Tune        func(s *litefs.Store)
 	// KernelMount mounts the file system for real (driver B): the kernel's page
 	// cache and lock translation are in play and LiteFS's own Invalidator talks
 	// to the kernel. The in-process File API must not be used on such a node.
@@ -109,6 +111,7 @@ func NewNode(cfg Config) (*Node, error) {
 	} else {
 		n.FS.VerifAttachNullServer()
 		n.Cache = newPageCache(n)
+		n.Cache.RefillAfterInvalidate = cfg.RefillCache
 		st.Invalidator = n.Cache
 	}
 	root, _ := n.FS.Root()
